@@ -97,4 +97,55 @@ for call in calls:
     report["cases"][name] = {"msgs": msgs, "parts": parts, "logged": logged, "default_limit_mismatches": mismatches,
                              "default_limit_comparisons": n_cmp}
 
+# ---- class invariants (method call and attribute assignment) with the default and with a user-supplied a_repr
+INVARIANT_SOURCE = """
+import icontract
+
+@icontract.invariant(lambda self: len(self.items) > 100{kw})
+@icontract.invariant(lambda self: self.text == ""{kw}, check_on=icontract.InvariantCheckEvent.SETATTR)
+class Shelf:
+    def __init__(self, items):
+        self.items = list(range(200))
+        self.text = ""
+        self.items = items
+
+    def touch(self):
+        return len(self.items)
+
+class LateShelf(Shelf):
+    pass
+"""
+
+report["invariants"] = []
+for custom in (False, True):
+    ns_inv = {"LOGREPR": mod.LOGREPR}
+    src_path = os.path.join(os.path.dirname(sys.argv[2]), "c20_invariants_{}.py".format(int(custom)))
+    with open(src_path, "w") as fid:
+        fid.write(INVARIANT_SOURCE.replace("{kw}", ", a_repr=LOGREPR" if custom else ""))
+    spec_inv = importlib.util.spec_from_file_location("c20_invariants_{}".format(int(custom)), src_path)
+    mod_inv = importlib.util.module_from_spec(spec_inv)
+    mod_inv.LOGREPR = mod.LOGREPR
+    spec_inv.loader.exec_module(mod_inv)
+    for scen, n_items, text in (("construct", 10, None), ("construct", 60, None), ("setattr", 150, "y" * 300), ("setattr", 150, "z" * 20)):
+        del PARTS[:]
+        del mod.LOGREPR.log[:]
+        items = list(range(n_items))
+        entry = {"scenario": scen, "custom": custom, "n_items": n_items, "outcome": None, "parts": [], "logged": [], "reference": {}}
+        try:
+            if scen == "construct":
+                mod_inv.Shelf(items)
+            else:
+                shelf = mod_inv.Shelf(list(range(n_items)))
+                shelf.text = text
+            entry["outcome"] = "returned"
+        except icontract.ViolationError as err:
+            entry["outcome"] = "violation"
+            entry["message"] = str(err)
+            entry["parts"] = list(PARTS[-1]) if PARTS else []
+            entry["logged"] = list(mod.LOGREPR.log)
+            entry["reference"] = {"self.items": REFERENCE.repr(items), "self.text": REFERENCE.repr(text)}
+        except BaseException as err:  # pylint: disable=broad-except
+            entry["outcome"] = "OTHER {}: {}".format(type(err).__name__, err)
+        report["invariants"].append(entry)
+
 print("REPORT=" + json.dumps(report))
